@@ -77,7 +77,7 @@ func childMain(t *testing.T, run func(idx int, job json.RawMessage, progress fun
 // whose child died or made no progress for stallSeconds of wall-clock time
 // (nil = report it as a harness problem).
 const stallSeconds = 30
-const maxStallsPerWorker = 2
+const maxStallsPerWorker = 3
 
 func runChildren(t *testing.T, e Env, childTest string, jobs any, n int, workers int, onCrash func(idx int, info json.RawMessage, output string, stalled bool) any) []json.RawMessage {
 	jobsPath := e.Out + ".jobs.json"
